@@ -153,10 +153,11 @@ def _single_return(m: core.Mod, q: str) -> ast.expr:
     return r[0].value
 
 
-def _siblings(ctx, mir) -> None:
+def is_leap_rules(ctx, mir) -> None:
+    """Gregorian leap rule in the pure-Python helper and its agreement with the compiled one (also used by every
+    property that depends on add_duration's month-end clamp)"""
     hm = pmod("_helpers")
     can = Canon({"year": "Y", "y": "Y"})
-    # is_leap
     try:
         pl = py_bool_table(_single_return(hm, "is_leap"), can)
         want = py_bool_table(ast.parse("Y % 4 == 0 and (Y % 100 != 0 or Y % 400 == 0)", mode="eval").body, can)
@@ -168,18 +169,55 @@ def _siblings(ctx, mir) -> None:
                    "rust/src/helpers.rs")
     except core.Unsupported as e:
         ctx.unverified("SIBLING.is_leap", "is_leap", str(e), hm.rel)
+
+
+def clamp_dependencies(ctx) -> None:
+    """what helpers.add_duration's `min(DAYS_PER_MONTHS[int(is_leap(year))][month], dt.day)` relies on"""
+    C = lambda n: core.const("constants", n)  # noqa: E731
+    dpm = C("DAYS_PER_MONTHS")
+    rel = "src/pendulum/constants.py"
+    want_n = (-1, 31, 28, 31, 30, 31, 30, 31, 31, 30, 31, 30, 31)
+    ctx.ob("TABLES.months", "DAYS_PER_MONTHS[0]", len(dpm) == 2 and tuple(dpm[0]) == want_n, f"non-leap month lengths {dpm[0]}", rel)
+    ctx.ob("TABLES.months", "DAYS_PER_MONTHS[1]", len(dpm) == 2 and tuple(dpm[1]) == want_n[:2] + (29,) + want_n[3:], f"leap month lengths {dpm[1]}", rel)
+    try:
+        mir = mirfront.load()
+    except mirfront.MirUnavailable as e:
+        mir = None
+        ctx.unverified("SIBLING.is_leap", "rust", f"MIR unavailable: {e}", "rust/")
+    is_leap_rules(ctx, mir)
+
+
+def _siblings(ctx, mir) -> None:
+    is_leap_rules(ctx, mir)
+    hm = pmod("_helpers")
+    can = Canon({"year": "Y", "y": "Y"})
     # p / is_long_year
     try:
         fn = hm.func("is_long_year")
-        inner = [n for n in fn.body if isinstance(n, ast.FunctionDef) and n.name == "p"]
-        pbody = core.returns(inner[0])[0].value
-        pparam = inner[0].args.args[0].arg
-        canp = Canon({pparam: "Y", "year": "Y"})
-        p_py = canp.s(pbody)
-        want_p = canp.s(ast.parse("Y + Y // 4 - Y // 100 + Y // 400", mode="eval").body)
-        ctx.ob("FORMULA.p", "py:is_long_year.p", p_py == want_p, f"p(y) = {p_py}; must be y + y//4 - y//100 + y//400", hm.loc(inner[0]))
-        ret = [r for r in core.returns(fn)][-1].value
-        ret_i = _inline_calls(ret, "p", pparam, pbody)
+        inner = [n for n in fn.body if isinstance(n, ast.FunctionDef)]
+        ref_p = ast.parse("Y + Y // 4 - Y // 100 + Y // 400", mode="eval").body
+        if len(inner) == 1 and len(inner[0].args.args) == 1:
+            pname = inner[0].name
+            pbody = core.returns(inner[0])[0].value
+            pparam = inner[0].args.args[0].arg
+            canp = Canon({pparam: "Y", "year": "Y"})
+            p_py = canp.s(pbody)
+            want_p = canp.s(ref_p)
+            ctx.ob("FORMULA.p", "py:is_long_year.p", p_py == want_p, f"{pname}(y) = {p_py}; must be y + y//4 - y//100 + y//400", hm.loc(inner[0]))
+            ret = [r for r in core.returns(fn)][-1].value
+            ret_i = _inline_calls(ret, pname, pparam, pbody)
+        elif not inner:
+            # no local helper: the straight-line locals are substituted into the returned expression and the
+            # whole decision is compared with the reference (p inlined on both sides)
+            ps = cfg.paths(fn)
+            if len(ps) != 1 or ps[0].exit()[1] != "return":
+                raise core.Unsupported("is_long_year: neither a local helper nor a single straight-line return")
+            pparam, pbody = "Y", ref_p
+            p_py = Canon({"Y": "Y"}).s(ref_p)
+            ret_i = cfg.subst_path(ps[0], ps[0].exit()[2].value, set())
+            ctx.ob("FORMULA.p", "py:is_long_year.p", True, "no local helper; the inlined formula is compared as a whole below", hm.loc(fn), nontrivial=False)
+        else:
+            raise core.Unsupported("is_long_year: unrecognised local helpers")
         pt = py_bool_table(ret_i, can)
         want_e = _inline_calls(ast.parse("p(Y) % 7 == 4 or p(Y - 1) % 7 == 3", mode="eval").body, "p", pparam, pbody)
         ctx.ob("FORMULA.is_long_year", "py:is_long_year", pt == py_bool_table(want_e, can),
